@@ -158,4 +158,47 @@ theorem tie_newWindows (opts : List Opt) (now : Nat) :
   refine ⟨rfl, rfl, ?_⟩
   simp [windowOfArgs, newPassCounterCall, newRtCounterCall, Shedder.new]
 
+/-! ### rest/engine.go, zrpc/server.go: from the service configuration to the shedder -/
+
+/-- `newEngine`: shedders iff `c.CpuThreshold > 0`; thresholds `c.CpuThreshold` and `(c.CpuThreshold + topCpuUsage) >> 1`
+(translated, equal to the model's for ALL configurations), each passed through `load.WithCpuThreshold` to
+`load.NewAdaptiveShedder`. -/
+theorem tie_newEngine (enabled : Bool) (t : Int) (now : Nat) :
+    Extracted.C02.topCpuUsage = C02.topCpuUsage
+    ∧ engineShedderBuilt = "load.NewAdaptiveShedder(load.WithCpuThreshold(c.CpuThreshold))"
+    ∧ enginePriorityBuilt = "load.NewAdaptiveShedder(load.WithCpuThreshold( (c.CpuThreshold + topCpuUsage) >> 1))"
+    ∧ newEngine enabled t now =
+        (if engineSheddingIf t then
+          { shedder := some (newShedder enabled [.threshold (engineThreshold t)] now)
+            priority := some (newShedder enabled [.threshold (enginePriorityThreshold t)] now) }
+         else { shedder := none, priority := none }) := by
+  refine ⟨rfl, rfl, rfl, ?_⟩
+  have hp : enginePriorityThreshold t = priorityThreshold t := by
+    simp only [enginePriorityThreshold, priorityThreshold, C02.topCpuUsage]
+    show (t + 1000) >>> 1 = (t + 1000) / 2
+    rw [Int.shiftRight_eq_div_pow]
+    rfl
+  simp only [newEngine, engineSheddingIf, engineThreshold, hp, decide_eq_true_eq]
+
+/-- `engine.getShedder` (whole body) and the route's middleware: guarded by `Middlewares.Shedding`, handed
+`ng.getShedder(fr.priority)`. -/
+theorem tie_routeShedder (e : Engine) (priority : Bool) :
+    engineGetShedderFnConds = ["priority && ng.priorityShedder != nil"] ∧ engineGetShedderFnEffects = []
+    ∧ routeSheddingGuard = "ng.conf.Middlewares.Shedding" ∧ routeShedderArg = "ng.getShedder(fr.priority)"
+    ∧ (let pick := fun (name : String) => if name = "ng.priorityShedder" then e.priority else e.shedder
+       pick (engineGetShedderFn (σ := Unit) (fun _ => priority && e.priority.isSome) ()).2 = e.getShedder priority) := by
+  refine ⟨rfl, rfl, rfl, rfl, ?_⟩
+  simp only [engineGetShedderFn, Engine.getShedder]
+  cases priority <;> cases e.priority <;> simp
+
+/-- zrpc/server.go: the interceptor is installed iff `c.CpuThreshold > 0`, around
+`NewAdaptiveShedder(WithCpuThreshold(c.CpuThreshold))` (same guard and threshold expressions as the REST engine's main
+shedder, which are translated above). -/
+theorem tie_rpcServerShedder (enabled : Bool) (t : Int) (now : Nat) :
+    rpcServerShedderBuilt = ["c.CpuThreshold > 0", engineShedderBuilt, "shedder"]
+    ∧ rpcServerShedder enabled t now =
+        (if engineSheddingIf t then some (newShedder enabled [.threshold (engineThreshold t)] now) else none) := by
+  refine ⟨rfl, ?_⟩
+  simp only [rpcServerShedder, engineSheddingIf, engineThreshold, decide_eq_true_eq]
+
 end GoZero.C02.TieBody
